@@ -167,6 +167,8 @@ Definition tbl_ic : list entry := [
                                         Ok (([], l0) :: r))));
   ("ics_iter_slices", a1 d_ics (fun c => e_res (e_list e_nats) (ics_iter_slices c)));
   ("ops_new", a3 d_nats d_ics d_ics (fun x a b => e_opt e_ops (ops_new x a b)));
+  ("ops_validate", a1 d_ops (fun p => e_opt e_ops (ops_validate p)));
+  ("a_to_dense", a1 d_nats (fun l => e_pair e_nats N (to_dense l)));
   ("ops_singleton", a3 d_nat d_nats d_nats (fun x a b => e_ops (ops_singleton x a b)));
   ("ops_iter", a1 d_ops (fun p =>
       e_res (e_list (fun t => L [N (fst (fst t)); e_nats (snd (fst t)); e_nats (snd t)])) (ops_iter p)))
@@ -427,6 +429,7 @@ Definition tbl_lax : list entry := [
   ("lax_json", a1 d_lohg (fun f => L [Sy (print_json (j_lohg f));
                                       e_bool (match uj_lohg (j_lohg f) with Some _ => true | None => false end)]));
   ("lhg_coequalizer", a1 d_lhg (fun h => e_rff (lhg_coequalizer VB h)));
+  ("lhg_is_strict", a1 d_lhg (fun h => e_bool (lhg_is_strict h)));
   ("lhg_quotient", a1 d_lhg (fun h => e_res (e_pair e_lhg e_q) (lhg_quotient VB Nat.eqb h)));
   ("lohg_quotient", a1 d_lohg (fun f => e_res (e_pair e_lohg e_q) (lohg_quotient VB Nat.eqb f)));
   ("lhg_to_hypergraph", a1 d_lhg (fun h => e_res e_hg (lhg_to_hypergraph h)));
